@@ -12,6 +12,7 @@ import (
 	"strconv"
 	"strings"
 	"sync"
+	"syscall"
 	"time"
 
 	"verifsim/rewrite"
@@ -60,8 +61,14 @@ func loadFindings() []finding {
 	return f.Findings
 }
 
+// scratchDir is removed on every exit path (build output must not pile up).
+var scratchDir string
+
 func fatal2(format string, args ...any) {
 	fmt.Fprintf(os.Stderr, "verifsim: "+format+"\n", args...)
+	if scratchDir != "" {
+		os.RemoveAll(scratchDir)
+	}
 	os.Exit(2)
 }
 
@@ -248,6 +255,7 @@ func runWorker(bin string, memMB int, env []string, args ...string) ([]byte, []b
 		cmd = exec.Command(bin, args...)
 	}
 	cmd.Env = append(os.Environ(), env...)
+	cmd.SysProcAttr = &syscall.SysProcAttr{Pdeathsig: syscall.SIGKILL} // no orphans if the orchestrator is killed
 	var so, se bytes.Buffer
 	cmd.Stdout = &so
 	cmd.Stderr = &se
@@ -286,6 +294,7 @@ func cmdCheck(args []string) {
 
 	scratch := filepath.Join(verifDir, "build", fmt.Sprintf("%s-%d", *prop, os.Getpid()))
 	os.RemoveAll(scratch)
+	scratchDir = scratch
 	defer os.RemoveAll(scratch)
 	exit := func(code int) {
 		os.RemoveAll(scratch)
